@@ -2,22 +2,21 @@ SPECIFICATION Spec
 CONSTANTS
   Cfg0 <- MCfg
   Types <- MTypes
-  MaxEv = 3
-  MaxAct = 3
+  MaxEv = 4
+  MaxAct = 4
   Budget = 2
   NDrv = 1
   DrvBudget = 2
   MaxDepth = 2
   QueueCap = 0
   HardLimit = 0
-  WithErrors = TRUE
+  WithErrors = FALSE
   WithIdle = FALSE
-  WithSleep = FALSE
-  TimeoutTypes = {}
-  KeepLog = TRUE
+  WithSleep = TRUE
+  TimeoutTypes = {"T"}
+  KeepLog = FALSE
 INVARIANT TypeOK
 INVARIANT LockOK
 INVARIANT NoUnexplainedWitness
 INVARIANT TerminalOK
-INVARIANT EmitBehaviour
 CHECK_DEADLOCK FALSE
